@@ -289,6 +289,28 @@ def near_coincident_events():
     return evs
 
 
+def tf_table_events():
+    """The Cartesian -> pure transformation tables of the code against the documented solid harmonics (docs/basis.rst via sympy):
+    T[pure, cart] = coefficient of the monomial in the harmonic x N_pure / N_cart (independent of the exponent)."""
+    from iodata.convert import iter_cart_alphabet
+    from iodata.overlap import OVERLAP_CONVENTIONS
+    from iodata.overlap_cartpure import tfs
+    from ..refeval import cart_norm, parse_label, pure_norm, solid_harmonic
+    evs = []
+    for l in range(2, len(tfs)):
+        carts = [tuple(int(v) for v in n) for n in iter_cart_alphabet(l)]
+        labs = OVERLAP_CONVENTIONS[(l, "p")]
+        T = np.zeros((len(labs), len(carts)))
+        for i, lab in enumerate(labs):
+            sgn, what = parse_label(lab)
+            for mon, coef in solid_harmonic(l, what[1], what[2]).items():
+                T[i, carts.index(mon)] = sgn * coef * pure_norm(1.3, l) / cart_norm(1.3, mon)
+        got = np.asarray(tfs[l], dtype=float)
+        dev = float(np.abs(T - got).max()) if got.shape == T.shape else -1.0
+        evs.append({"op": "TfTable", "l": l, "maxdev": dev, "same": bool(0.0 <= dev <= 1e-13)})
+    return evs
+
+
 def screening_events():
     """Pairs of s primitives whose overlap prefactor sits around the 1e-15 threshold: the neglected contribution is < 1e-15."""
     from iodata.basis import MolecularBasis, Shell
@@ -359,6 +381,7 @@ def check(run: Run):
         events += sub
     events += pmap(random_case, [run.seed * 1009 + i for i in range(run.pick(60, 600))], chunksize=1)
     events += near_coincident_events()
+    events += tf_table_events()
     events += screening_events()
     events += rejection_events()
     reached = validate_traces(run, "Trace_Kernels", [[e] for e in events], chunk=4000)
@@ -377,6 +400,8 @@ def check(run: Run):
                 key = f"overlap not equivariant under {e['actions'][-1]} (same={e['same']} ref_same={e['ref_same']})"
             elif e["op"] == "Reference":
                 key = f"overlap differs from reference: two={e['two']} same={e['same']} sym={e['sym']} psd={e['psd']} transpose={e['transpose']} lmax={e['lmax']}"
+            elif e["op"] == "TfTable":
+                key = f"Cartesian->pure transformation table l={e['l']} differs from the documented solid harmonics"
             elif e["op"] == "Screening":
                 key = f"screening: neglected contribution above 1e-15 (target={e['target']})"
             else:
